@@ -74,7 +74,7 @@ def instances(tier, seed):
                 if g == 'fun':
                     g = fam.G_FUN(N)
                 h = H[n % len(H)]
-                degree, scheme = [(2, 'radau'), (4, 'radau'), (3, 'legendre'), (1, 'legendre'), (1, 'radau'), (5, 'radau')][n % 6]
+                degree, scheme = [(2, 'radau'), (1, 'radau'), (3, 'legendre'), (1, 'legendre'), (4, 'radau'), (5, 'radau')][n % 6]
                 if method == 'DC' and not fam.rational_tables(degree, scheme) and not fam.horizon_symbolic(h):
                     h = Hsym[n % len(Hsym)]
                 cfg = Cfg(method, N=N, M=M, intg=intg or 'rk', grid=g, degree=degree, scheme=scheme)
